@@ -36,7 +36,7 @@ def streams(ctx):
     q = ctx.quick()
     # corpus first: past disagreements (sessions replayed under forced-collection schedules)
     for path in corpus_sessions("C03"):
-        cases = gen_cases("gc", ["corpus", path] + ([5, 7] if q else [1, 2, 3, 5, 7, 16]), ctx.seed)
+        cases = gen_cases("gc", ["corpus", path] + ([64] if q else [5, 7, 16]), ctx.seed)
         md, sd = correspond(ctx, "corpus-sessions", cases, obs_nontrivial)
         settle(ctx, md, sd)
     # Heap API sequences: model of alloc/free/put/maybe_put/mark/sweep/grow vs the real Heap
@@ -44,11 +44,11 @@ def streams(ctx):
     md, sd = correspond(ctx, "heap-api-sequences", cases, lambda r, i: i.startswith("ok"))
     settle(ctx, md, sd)
     # snapshots around forced collections: model run_gc and Spec.Reach vs the real collector
-    cases = gen_cases("gc", ["snap", 120 if q else 2400, 6], ctx.seed)
+    cases = gen_cases_sharded("gc", ["snap", 30 if q else 300, 6], ctx.seed, 4 if q else 8)
     md, sd = correspond(ctx, "gc-snapshots", cases, snap_nontrivial, spec_equal=snap_spec_equal)
     settle(ctx, md, sd)
     # unobservability exploration on the implementation
-    cases = gen_cases("gc", ["obs", 100 if q else 1200, 3 if q else 18], ctx.seed)
+    cases = gen_cases_sharded("gc", ["obs", 20 if q else 150, 3 if q else 18], ctx.seed, 5 if q else 8)
     md, sd = correspond(ctx, "schedule-exploration", cases, obs_nontrivial)
     settle(ctx, md, sd)
 
